@@ -30,10 +30,12 @@ type c11ncfg struct {
 	UserID   string
 	Cities   []string
 	Gain     complex128
+	Ratio    float32
+	Token    string
 }
 
 func HarnessC11Names() {
-	all := []string{"USER_IDS", "HTTP_PORT", "MAX_QPS", "LABELS", "BACKEND_ALLOWED_IPS", "USER_ID", "CITIES", "GAIN", "TIER", "CAFÉ_URL"}
+	all := []string{"USER_IDS", "HTTP_PORT", "MAX_QPS", "LABELS", "BACKEND_ALLOWED_IPS", "USER_ID", "CITIES", "GAIN", "TIER", "CAFÉ_URL", "RATIO", "TOKEN"}
 	decoys := []string{"L", "CAF_URL", "CAFÉURL", "CAFÉ_U_R_L", "USER_I_DS", "USER_ID_S", "USERIDS", "HTTPPORT", "H_T_T_P_PORT", "MAX_Q_P_S", "MAXQPS", "BACKEND_ALLOWED_I_PS", "ALLOWED_IPS"}
 	clear := func() {
 		for _, n := range all {
@@ -86,6 +88,9 @@ func HarnessC11Names() {
 	}
 	zzverif.Setenv("CITIES", "New York,Boston ")
 	zzverif.Setenv("GAIN", "0.1+0.2i")
+	zzverif.Setenv("RATIO", "3.4028235e+38") // the largest float32, as strconv prints it
+	zzverif.Setenv("TOKEN", "c2VjcmV0==")    // a value containing '='
+
 	t := dials.NewType(ptrify.Pointerify(reflect.TypeOf(c11ncfg{}), reflect.Value{}))
 	val, err := (&Source{}).Value(context.Background(), t)
 	inRange := zzverif.Implies(hPort, zzverif.And(port >= -1<<15, port <= 1<<15-1))
@@ -125,6 +130,8 @@ func HarnessC11Names() {
 	zzverif.Assert(!ct.IsNil() && ct.Len() == 2 && ct.Index(0).String() == "New York", "C11 CITIES: an unquoted list element containing a space did not arrive as written")
 	g := f("Gain")
 	zzverif.Assert(!g.IsNil() && g.Elem().Complex() == complex(0.1, 0.2), "C11 GAIN: a complex128 leaf does not hold the parsed value (parts rounded to float32?)")
+	zzverif.Assert(!f("Ratio").IsNil() && float32(f("Ratio").Elem().Float()) == 3.4028235e+38, "C11 RATIO: the largest float32 value was rejected or changed")
+	zzverif.Assert(!f("Token").IsNil() && f("Token").Elem().String() == "c2VjcmV0==", "C11 TOKEN: a value containing '=' did not arrive as written")
 	lb := f("Labels")
 	zzverif.Assert(lb.IsNil() == (hLabels == 0), "C11 LABELS: map set/unset wrongly")
 	if hLabels != 0 && !lb.IsNil() {
